@@ -734,4 +734,79 @@ func c07Reducers(c *c07Ctx) {
 			}
 		}
 	}
+	c07CollectValues(c)
+}
+
+// c07CollectValues: distinct-collection read as a set over rows of arbitrary constants, among them values whose
+// hashes are equal although they are different ([1] / 65792, a number / duration / time with the same count,
+// a name and a string with the same text, pairs whose first components agree in their low bits, a two-element
+// list and the pair of the same elements), in every order of the rows; one- and two-argument forms.
+func c07CollectValues(c *c07Ctx) {
+	X, Y := ast.Variable{Symbol: "X"}, ast.Variable{Symbol: "Y"}
+	nm, _ := ast.Name("/a")
+	P := func(a, b ast.Constant) ast.Constant { return ast.Pair(&a, &b) }
+	five := ast.Number(5)
+	W := []ast.Constant{ast.List([]ast.Constant{ast.Number(1)}), ast.Number(65792), ast.Number(1), ast.Duration(1), ast.Time(1), ast.Float64(1),
+		ast.String("/a"), nm, ast.Bytes([]byte("/a")), P(ast.Number(-1), five), P(ast.Number(math.MaxInt64), five), P(ast.Number(0), five), P(ast.Number(math.MinInt64), five),
+		ast.List([]ast.Constant{ast.Number(0), ast.Number(0)}), P(ast.Number(0), ast.Number(0)), ast.Number(0), ast.Float64(0)}
+	run := func(fn ast.ApplyFn, rows []ast.ConstSubstList) (ast.Constant, error) {
+		var out ast.Constant
+		var err error
+		pv, st := rt.Try(func() { out, err = functional.EvalReduceFn(fn, rows) })
+		if pv != nil {
+			return out, fmt.Errorf("PANIC %v at %s", pv, rt.ShortStack(st))
+		}
+		return out, err
+	}
+	check := func(desc string, fn ast.ApplyFn, rows []ast.ConstSubstList, want map[string]bool) {
+		c.eval()
+		v, err := run(fn, rows)
+		got := map[string]bool{}
+		n := 0
+		if err == nil {
+			v.ListValues(func(e ast.Constant) error { got[oracle.Key(e)] = true; n++; return nil }, func() error { return nil })
+		}
+		ok := err == nil && n == len(want) && len(got) == len(want)
+		for k := range want {
+			if !got[k] {
+				ok = false
+			}
+		}
+		if !ok {
+			c.fail(fmt.Sprintf("%s = %v err=%v: read as a set it must hold exactly the %d distinct row values", desc, v, err, len(want)), desc)
+		}
+	}
+	var multisets [][]int
+	var rec func(start int, cur []int)
+	rec = func(start int, cur []int) {
+		if len(cur) > 0 {
+			multisets = append(multisets, append([]int{}, cur...))
+		}
+		if len(cur) == 3 {
+			return
+		}
+		for i := start; i < len(W); i++ {
+			rec(i, append(cur, i))
+		}
+	}
+	rec(0, nil)
+	one := ast.ApplyFn{Function: ast.FunctionSym{Symbol: "fn:collect_distinct", Arity: 1}, Args: []ast.BaseTerm{X}}
+	two := ast.ApplyFn{Function: ast.FunctionSym{Symbol: "fn:collect_distinct", Arity: 2}, Args: []ast.BaseTerm{X, Y}}
+	for _, ms := range multisets {
+		for _, p := range permutations(len(ms)) {
+			var rows, rows2 []ast.ConstSubstList
+			want, want2 := map[string]bool{}, map[string]bool{}
+			var desc []string
+			for _, j := range p {
+				v := W[ms[j]]
+				rows = append(rows, ast.ConstSubstList{}.Extend(X, v))
+				rows2 = append(rows2, ast.ConstSubstList{}.Extend(X, v).Extend(Y, five))
+				want[oracle.Key(v)] = true
+				want2[oracle.Key(P(v, five))] = true
+				desc = append(desc, v.String())
+			}
+			check("fn:collect_distinct(X) over rows X="+strings.Join(desc, " ; "), one, rows, want)
+			check("fn:collect_distinct(X,Y) over rows (X,5) with X="+strings.Join(desc, " ; "), two, rows2, want2)
+		}
+	}
 }
